@@ -755,6 +755,16 @@ Proof.
   - intro H. inversion H. apply robs_eqb_iff. reflexivity.
 Qed.
 
+Lemma default_accepted_of_init dd e : init_default dd = Ok e -> default_accepted (Some dd) = true.
+Proof.
+  unfold default_accepted. cbn [scoped_default spec_default_opt].
+  destruct (forallb scoped_step (d_exec dd)) eqn:Hs; [|reflexivity].
+  intro H. rewrite (init_default_spec _ Hs) in H. destruct (spec_default dd); [reflexivity|discriminate].
+Qed.
+
+Lemma default_accepted_Some d def : scoped_default d = true -> spec_default_opt d = Some def -> default_accepted d = true.
+Proof. intros H1 H2. unfold default_accepted. rewrite H1, H2. reflexivity. Qed.
+
 Section EvalRule.
   Context {O : Type} (obs_of : effective -> O) (eqb : O -> O -> bool).
   Hypothesis eqb_iff : forall x y, eqb x y = true <-> x = y.
@@ -764,19 +774,24 @@ Section EvalRule.
   Theorem corr_implies_prop proxy d r :
     prop_rule obs_of eqb proxy d r (map_load obs_of (load proxy d r)) = true.
   Proof.
-    unfold load, with_default, prop_rule. destruct d as [dd|]; simpl.
+    unfold load, with_default. destruct d as [dd|].
     - pose proof (init_default_no_panic dd) as Hnp.
-      destruct (init_default dd) as [de| |] eqn:Hd; simpl; [|reflexivity|congruence].
+      destruct (init_default dd) as [de| |] eqn:Hd; [|reflexivity|congruence].
+      pose proof (default_accepted_of_init _ _ Hd) as Hda.
       pose proof (create_rule_no_panic proxy (Some de) r) as Hnp2.
-      destruct (create_rule proxy (Some de) r) as [e| |] eqn:Hr; simpl; [|reflexivity|congruence].
-      destruct (forallb scoped_step (d_exec dd)) eqn:Hsd; simpl; [|reflexivity].
+      cbn [map_load]. destruct (create_rule proxy (Some de) r) as [e| |] eqn:Hr; cbn [map_res]; unfold prop_rule;
+        rewrite ?Hda; [|reflexivity|congruence].
+      cbn [andb scoped_default spec_default_opt].
+      destruct (forallb scoped_step (d_exec dd)) eqn:Hsd; cbn [andb]; [|reflexivity].
       destruct (scoped_rule r) eqn:Hsr; [|reflexivity].
       rewrite (init_default_spec _ Hsd) in Hd. destruct (spec_default dd) as [de'|]; [|discriminate].
       inversion Hd; subst de'. rewrite (create_rule_spec _ _ _ Hsr) in Hr.
       destruct (r_matchers_ok r); [|discriminate]. destruct (spec_rule proxy (Some de) r); [|discriminate].
       inversion Hr; subst. apply eqb_iff. reflexivity.
     - pose proof (create_rule_no_panic proxy None r) as Hnp2.
-      destruct (create_rule proxy None r) as [e| |] eqn:Hr; simpl; [|reflexivity|congruence].
+      cbn [map_load]. destruct (create_rule proxy None r) as [e| |] eqn:Hr; cbn [map_res]; unfold prop_rule;
+        [|reflexivity|congruence].
+      change (default_accepted None) with true. cbn [andb scoped_default spec_default_opt].
       destruct (scoped_rule r) eqn:Hsr; [|reflexivity].
       rewrite (create_rule_spec _ _ _ Hsr) in Hr.
       destruct (r_matchers_ok r); [|discriminate]. destruct (spec_rule proxy None r); [|discriminate].
@@ -789,7 +804,7 @@ Section EvalRule.
     scoped_default d = true -> scoped_rule r = true -> spec_default_opt d = Some def ->
     exists e, spec_rule proxy def r = Some e /\ x = obs_of e.
   Proof.
-    unfold prop_rule. intros H H1 H2 H3. rewrite H1, H2, H3 in H. simpl in H.
+    unfold prop_rule. intros H H1 H2 H3. rewrite (default_accepted_Some _ _ H1 H3), H1, H2, H3 in H. simpl in H.
     destruct (spec_rule proxy def r) as [e|]; [|discriminate].
     exists e. split; [reflexivity|]. apply eqb_iff in H. congruence.
   Qed.
@@ -799,7 +814,15 @@ Section EvalRule.
     scoped_default d = true -> scoped_rule r = true -> spec_default_opt d = Some def ->
     spec_rule proxy def r = None ->
     prop_rule obs_of eqb proxy d r (Loaded (Ok x)) = false.
-  Proof. unfold prop_rule. intros H1 H2 H3 H4. rewrite H1, H2, H3, H4. reflexivity. Qed.
+  Proof. unfold prop_rule. intros H1 H2 H3 H4. rewrite (default_accepted_Some _ _ H1 H3), H1, H2, H3, H4. reflexivity. Qed.
+
+  (** a factory over a malformed default rule violates it, whatever the rule *)
+  Theorem prop_rule_bad_default proxy d r x :
+    scoped_default d = true -> spec_default_opt d = None ->
+    prop_rule obs_of eqb proxy d r (Loaded x) = false.
+  Proof.
+    intros H1 H2. unfold prop_rule, default_accepted. rewrite H1, H2. destruct x; reflexivity.
+  Qed.
 End EvalRule.
 
 Lemma list_eqb_refl {A} (eqb : A -> A -> bool) (H : forall x y, eqb x y = true <-> x = y) l :
@@ -822,7 +845,7 @@ Section EvalSet.
               prop_set holds proxy d k sd
                 (SDone (is_ok (load_ruleset proxy def sd))
                    (map (lookup holds def (after (old_rules proxy def k) (load_ruleset proxy def sd))) paths)) = true).
-    { intros def Hdef Hsd. unfold prop_set. rewrite Hsd, Hdef. cbn [andb].
+    { intros def Hdef Hsd. unfold prop_set. rewrite (default_accepted_Some _ _ Hsd Hdef), Hsd, Hdef. cbn [andb].
       destruct (forallb scoped_rule (sd_rules sd)) eqn:Hsr; [|reflexivity].
       rewrite (load_ruleset_spec _ _ _ Hsr).
       destruct (forallb parse_ok (sd_rules sd) && sd_version_ok sd).
@@ -836,7 +859,7 @@ Section EvalSet.
       destruct (scoped_default (Some dd)) eqn:Hsd.
       + apply Hgo; [|reflexivity]. simpl in Hsd. rewrite (init_default_spec _ Hsd) in Hd.
         simpl. destruct (spec_default dd); [|discriminate]. inversion Hd. reflexivity.
-      + unfold prop_set. rewrite Hsd. reflexivity.
+      + unfold prop_set, default_accepted. rewrite Hsd. reflexivity.
     - apply Hgo; reflexivity.
   Qed.
 
@@ -845,7 +868,7 @@ Section EvalSet.
     scoped_default d = true -> forallb scoped_rule (sd_rules sd) = true -> spec_default_opt d = Some def ->
     exists es, spec_rules proxy def (sd_rules sd) = Some es /\ sv = map (lookup holds def es) paths.
   Proof.
-    unfold prop_set. intros H H1 H2 H3. rewrite H1, H2, H3 in H. cbn [andb] in H.
+    unfold prop_set. intros H H1 H2 H3. rewrite (default_accepted_Some _ _ H1 H3), H1, H2, H3 in H. cbn [andb] in H.
     destruct (spec_rules proxy def (sd_rules sd)) as [es|]; [|discriminate].
     exists es. split; [reflexivity|]. apply (list_eqb_spec _ served_eqb_iff) in H. congruence.
   Qed.
@@ -855,7 +878,7 @@ Section EvalSet.
     scoped_default d = true -> forallb scoped_rule (sd_rules sd) = true -> spec_default_opt d = Some def ->
     sv = map (lookup holds def (spec_old proxy def k)) paths.
   Proof.
-    unfold prop_set. intros H H1 H2 H3. rewrite H1, H2, H3 in H. cbn [andb] in H.
+    unfold prop_set. intros H H1 H2 H3. rewrite (default_accepted_Some _ _ H1 H3), H1, H2, H3 in H. cbn [andb] in H.
     apply (list_eqb_spec _ served_eqb_iff) in H. congruence.
   Qed.
 End EvalSet.
